@@ -1,4 +1,5 @@
 import GarbleVerif.Proofs.BitOps
+import GarbleVerif.Proofs.BitOps2
 import GarbleVerif.Proofs.SrcFrame
 /-! Operator-level lemmas: the bit-level operators of the core fragment (Model/BitSem.lean) against the
 source operators (Model/SrcSem.lean). -/
@@ -109,6 +110,44 @@ theorem binBits_sound (op : Src.BinOp) (t : STy) (x y : List Bool) (va vb : Val)
         simp [firstOf, kindOf]
       · rw [hsub.1 hr]
         simp [firstOf, Rel, hr]
+    case mul =>
+      simp only [Option.some.injEq, Prod.mk.injEq] at h; obtain ⟨rfl, rfl, rfl⟩ := h
+      have hmul := binop_mul k a b ha hb
+      simp only [Src.binop, STy.toTy, intOp, checked]
+      cases hr : k.inRange (a * b)
+      · obtain ⟨bits, hbits⟩ := hmul.2 hr
+        rw [hbits]
+        simp [firstOf, kindOf]
+      · rw [hmul.1 hr]
+        simp [firstOf, Rel, hr]
+    case div =>
+      simp only [Option.some.injEq, Prod.mk.injEq] at h; obtain ⟨rfl, rfl, rfl⟩ := h
+      have hdiv := binop_div k a b ha hb
+      simp only at hdiv
+      simp only [Src.binop, STy.toTy, intOp, checked]
+      by_cases hb0 : b = 0
+      · have h1 := hdiv.1 hb0
+        subst hb0
+        simp [h1]
+      · simp only [hb0, if_false]
+        cases hr : k.inRange (Int.tdiv a b)
+        · simp [hdiv.2.2 hb0 hr]
+        · obtain ⟨h1, h2⟩ := hdiv.2.1 hb0 hr
+          rw [h1]
+          simp [Rel, hr, h2]
+    case rem =>
+      simp only [Option.some.injEq, Prod.mk.injEq] at h; obtain ⟨rfl, rfl, rfl⟩ := h
+      have hrem := binop_rem k a b ha hb
+      simp only at hrem
+      simp only [Src.binop, STy.toTy, intOp]
+      by_cases hb0 : b = 0
+      · have h1 := hrem.1 hb0
+        subst hb0
+        simp [h1]
+      · obtain ⟨h0, h1, h2⟩ := hrem.2 hb0
+        simp only [hb0, if_false]
+        rw [h1]
+        simp [Rel, h0, h2]
     case lt =>
       rw [binop_lt k a b ha hb] at h
       simp only [Option.some.injEq, Prod.mk.injEq] at h; obtain ⟨rfl, rfl, rfl⟩ := h
@@ -155,6 +194,7 @@ theorem binBits_not_stuck (op : Src.BinOp) (t : STy) (x y : List Bool) (va vb : 
     cases op <;> simp only [binBits] at h <;> first
       | (simp at h; done)
       | (simp only [Src.binop, STy.toTy, intOp]; exact hchk _)
+      | (simp only [Src.binop, STy.toTy, intOp]; split <;> first | exact hchk _ | simp)
       | simp [Src.binop, STy.toTy, intOp]
 
 /-- `as` never fails on a value of the source type, and its bits are the encoding of the result -/
